@@ -11,10 +11,10 @@ use std::sync::RwLock;
 /// What `Core` is about to handle.
 #[derive(Clone, Debug)]
 pub enum Input {
-    Propose { digest: Digest, round: Round, author: PublicKey },
-    Vote { hash: Digest, round: Round, author: PublicKey },
-    Timeout { round: Round, author: PublicKey, high_qc_round: Round },
-    TC { round: Round },
+    Propose(Block),
+    Vote(Vote),
+    Timeout(Timeout),
+    TC(TC),
     Timer,
 }
 
